@@ -134,7 +134,7 @@ var values = map[string]string{
 // Distinguishing calls: each input/output pair is one that no other built-in
 // bound under the name would produce.
 var probes = map[string][2]string{
-	"this.eval":                              {`eval("1+2*3")`, "7"},
+	"this.eval":                              {`var ex = "global"; (function(){ var ex = "local"; var r = eval("ex") + "|" + (0, eval)("ex"); eval("var ev = 5"); return r + "|" + ev + "|" + (typeof this.ev) })() + "|" + eval("1+2*3")`, "local|global|5|undefined|7"},
 	"this.parseInt":                          {`parseInt("12px", 10) + "|" + parseInt("ff", 16)`, "12|255"},
 	"this.parseFloat":                        {`parseFloat("1.5e1x")`, "15"},
 	"this.isNaN":                             {`isNaN("x") + "|" + isNaN(1) + "|" + isNaN(1/0)`, "true|false|false"},
